@@ -24,9 +24,9 @@ func (C07) Plan(tier string) core.Plan {
 
 func (C07) Info() core.Info {
 	return core.Info{
-		Rule:        "shape A: target parameter (n,T1), sometimes further named T1 parameters; 2-5 supplied named T0 values (sometimes all carrying one subtype label) among which each such parameter has a namesake; one converter with a type-only T0 input producing T1, in positional / struct / pointer-struct / built form; shape B: supplied (n,T0); one converter that takes (n,T0) explicitly and one type-only T0->T1 converter; both with 0-4 unrelated distractors, every registration order, random casing of names, additional target parameters. Each world under 12-48 seeded iteration-order schedules. Oracle A: the converter received the token supplied as n and the target received that execution's product. Oracle B: the name-using converter is in the log, the type-only one is not. Non-trivial: always (the competing candidates are the shape); distinct = distinct (world shape, event-log hash)",
+		Rule:        "shape A: target parameter (n,T1), sometimes further named T1 parameters; 2-5 supplied named T0 values (sometimes all carrying one subtype label) among which each such parameter has a namesake; one converter with a type-only T0 input producing T1, in positional / struct / pointer-struct / built form; shape B: supplied (n,T0); one converter that takes (n,T0) explicitly and one type-only T0->T1 converter; both with 0-4 unrelated distractors, every registration order, random casing of names, additional target parameters, sometimes another converter that also consumes T0, sometimes an earlier call of the same Func without the decisive option. Each world under 12-48 seeded iteration-order schedules. Oracle A: the converter received the token supplied as n and the target received that execution's product. Oracle B: the name-using converter is in the log, the type-only one is not. Non-trivial: always (the competing candidates are the shape); distinct = distinct (world shape, event-log hash)",
 		Assumptions: []string{"the statement covers a single conversion step; chains are not asserted"},
-		Probes:      []string{"c07_shape_a", "c07_shape_b", "c07_a_ge3_candidates", "c07_a_multi_param", "c07_a_subtyped_candidates", "c07_mixed_case_names", "s1_nonidentity_perms"},
+		Probes:      []string{"c07_shape_a", "c07_shape_b", "c07_a_ge3_candidates", "c07_a_multi_param", "c07_a_subtyped_candidates", "c07_after_earlier_call", "c07_mixed_case_names", "s1_nonidentity_perms"},
 		Real:        realComponents,
 		Simulated:   simComponents,
 	}
@@ -131,6 +131,11 @@ func (C07) Gen(r *simrt.RNG, tier string) core.Case {
 			addArg(world.ArgSpec{Kind: kind, Party: pi})
 		}
 	}
+	// another converter that also takes T0 (into an unrelated type)
+	if r.Chance(1, 3) {
+		w.Parties = append(w.Parties, world.Party{InForm: world.FormPositional, OutForm: world.FormPositional, In: []world.Slot{{Label: world.Label{Type: T0}}}, Out: []world.Slot{{Label: world.Label{Type: perm[10]}}}, HasErr: r.Bool()})
+		addArg(world.ArgSpec{Kind: world.ArgConvFunc, Party: len(w.Parties) - 1})
+	}
 	// unrelated distractors: other types only
 	nd := r.Intn(5)
 	for i := 0; i < nd; i++ {
@@ -159,21 +164,44 @@ func (C07) Gen(r *simrt.RNG, tier string) core.Case {
 		args[i], args[j] = args[j], args[i]
 	}
 	w.Ops = []world.Op{{Kind: world.OpCall, Target: 0, Args: args}}
+	// history: the same Func first called without the decisive option (the namesake
+	// in shape A, the name-using converter in shape B); the judged call comes last
+	if r.Chance(1, 4) {
+		var early []int
+		dropped := false
+		for _, ai := range args {
+			a := w.Args[ai]
+			if !dropped && ((shapeA && a.Kind == world.ArgNamed && a.Label.Name == n && a.Label.Type == T0) || (!shapeA && (a.Kind == world.ArgConv || a.Kind == world.ArgConvFunc) && a.Party == 1)) {
+				dropped = true
+				continue
+			}
+			early = append(early, ai)
+		}
+		if dropped {
+			w.Ops = []world.Op{{Kind: world.OpCall, Target: 0, Args: early}, {Kind: world.OpCall, Target: 0, Args: args}}
+		}
+	}
 	return RCase{W: w}
 }
 
 // c07Shape recognises shape A or B structurally (so shrunk worlds are re-validated).
 func c07Shape(w world.World) (shape string, n string, T0, T1 int, conv, nameConv int) {
-	if len(w.Ops) != 1 || w.Ops[0].Kind != world.OpCall || len(w.Faults) != 0 || len(w.Parties) < 2 {
+	if len(w.Ops) == 0 || len(w.Ops) > 2 || len(w.Faults) != 0 || len(w.Parties) < 2 {
 		return
 	}
-	t := w.Parties[w.Ops[0].Target]
+	for _, o := range w.Ops {
+		if o.Kind != world.OpCall || o.Target != w.Ops[0].Target {
+			return
+		}
+	}
+	last := len(w.Ops) - 1
+	t := w.Parties[w.Ops[last].Target]
 	if len(t.In) == 0 || t.In[0].Name == "" || t.In[0].Sub != "" || len(t.Defaults) != 0 {
 		return
 	}
 	n, T1 = t.In[0].Name, t.In[0].Type
 	used := map[int]bool{}
-	for _, a := range w.Ops[0].Args {
+	for _, a := range w.Ops[last].Args {
 		used[a] = true
 	}
 	// converters producing T1
@@ -200,7 +228,7 @@ func c07Shape(w world.World) (shape string, n string, T0, T1 int, conv, nameConv
 	okTypeOnly := func(p world.Party) bool {
 		return len(p.In) == 1 && p.In[0].Name == "" && p.In[0].Sub == "" && len(p.Out) == 1 && p.Out[0].Name == "" && p.Out[0].Sub == "" && !p.Once
 	}
-	view := model.ViewOf(&w, 0)
+	view := model.ViewOf(&w, last)
 	// every other parameter of the target has an exactly keyed value, or is a
 	// further named parameter of type T1 to be converted from its namesake
 	for _, s := range t.In[1:] {
@@ -329,11 +357,12 @@ func (C07) Run(c core.Case, ctx *core.Ctx) []core.Violation {
 		return nil
 	}
 	sh := world.ShapeHash(w)
-	tgt := w.Ops[0].Target
+	last := len(w.Ops) - 1
+	tgt := w.Ops[last].Target
 	cands := 0
 	mixed := false
 	var wantArg = -1
-	view := model.ViewOf(&w, 0)
+	view := model.ViewOf(&w, last)
 	for i, l := range view.Supplied {
 		if l.Name != "" && l.Type == T0 {
 			cands++
@@ -342,7 +371,7 @@ func (C07) Run(c core.Case, ctx *core.Ctx) []core.Violation {
 			}
 		}
 	}
-	for _, ai := range w.Ops[0].Args {
+	for _, ai := range w.Ops[last].Args {
 		if a := w.Args[ai]; a.Kind == world.ArgNamed && a.Spell != a.Label.Name {
 			mixed = true
 		}
@@ -373,10 +402,13 @@ func (C07) Run(c core.Case, ctx *core.Ctx) []core.Violation {
 				}
 			}
 		}
-		res := rt.Results[0]
+		res := rt.Results[last]
+		if last > 0 {
+			ctx.St.Inc("c07_after_earlier_call")
+		}
 		switch {
 		case !res.Returned:
-			ctx.St.Inc("cross_c06_panic_or_divergence")
+			out = append(out, core.Violation{Class: res.PanicClass, Site: res.PanicSite, Detail: fmt.Sprintf("shape %s: the call did not return: %s", shape, trunc(res.PanicDetail))})
 		case res.Err != nil:
 			add("name-affinity-call-failed", fmt.Sprintf("shape %s: the call failed (%s): %s", shape, res.ErrKind, trunc(res.Err.Error())))
 		default:
